@@ -147,6 +147,16 @@ func c04Analyse(q string) *c04Info {
 		switch {
 		case isListType(t):
 			kinds = append(kinds, c04List...)
+			if et := elemType(t); !isListType(et) {
+				// a list of abstract / isTypeOf-guarded objects: the type callbacks
+				// are consulted per element with the field's info
+				if c04AbsNames[named] {
+					kinds = append(kinds, FRTNil, FRTWrong, FRTPanic)
+					kinds = append(kinds, c04IsType...)
+				} else if c04IsTypeNames[named] {
+					kinds = append(kinds, c04IsType...)
+				}
+			}
 			if et := elemType(t); (named == "Kind" || named == "Stamp") && !isListType(et) && !strings.HasSuffix(et, "!") {
 				kinds = append(kinds, c04LeafList...)
 			}
@@ -612,6 +622,20 @@ func (c04) Run(t TestingT, scn json.RawMessage, tape *Tape) *Outcome {
 				want, _ = setAt(want, path, c04Wild+named)
 				nonTrivial = true
 			}
+		}
+		if hard && isListType(typ) && (strings.HasPrefix(kind, "rt_") || strings.HasPrefix(kind, "it_")) {
+			// the type resolver / isTypeOf of a list field is consulted once per
+			// element (with the field's info): every element fails
+			if l, _, ok := getAt(ci.Baseline, pathToJSON(path)); ok {
+				if ll, isList := l.([]interface{}); isList {
+					for i := range ll {
+						ep := path + "." + strconv.Itoa(i)
+						fails = append(fails, failure{path: ep, kind: kind, target: ci.nullTarget(ep), needErr: true})
+					}
+				}
+			}
+			nonTrivial = true
+			hard = false
 		}
 		if hard {
 			fails = append(fails, failure{path: path, kind: kind, target: ci.nullTarget(path), deferred: deferred, needErr: needErr})
